@@ -162,8 +162,28 @@ _ABSTRACT_MAPPING: t.Mapping[type, type] = t.cast(t.Mapping[type, type], {
 """Mapping to attempt to choose a simple concrete type for abstract/base collection types"""
 
 
+class _TypeKey:
+    """
+    Cache key for a type object, compared by identity (types may be unhashable,
+    and equality is too coarse: `Union[int, float] == Union[float, int]`).
+
+    Holds a reference to the type, so the `id` of a cached type can't be recycled
+    by another type object (e.g. a `list[int]` alias or a tuple type) while its entry exists.
+    """
+    __slots__ = ('ty',)
+
+    def __init__(self, ty: t.Any):
+        self.ty = ty
+
+    def __hash__(self) -> int:
+        return id(self.ty)
+
+    def __eq__(self, other: t.Any) -> bool:
+        return isinstance(other, _TypeKey) and self.ty is other.ty
+
+
 def _make_converter_key_f(ty: IntoConverter, handlers: ConverterHandlers = ConverterHandlers()) -> t.Any:
-    return (id(ty), handlers)
+    return (_TypeKey(ty), handlers)
 
 
 @t.overload
